@@ -277,9 +277,144 @@ def b_chain(free=False):
     return build
 
 
+def wrap_card(card, width, how):
+    """the card continued over as many lines as needed (five blanks or trailing &)"""
+    words = card.split(' ')
+    lines, cur = [], ''
+    for w in words:
+        if cur and len(cur) + 1 + len(w) > width:
+            lines.append(cur)
+            cur = w
+        else:
+            cur = (cur + ' ' + w) if cur else w
+    lines.append(cur)
+    if how == 'amp':
+        return ' &\n'.join(lines)
+    return '\n     '.join(lines)
+
+
+def b_slabs(ch):
+    """Decks beyond the small scope of the other scenarios: N slabs along x (up to 130 cells and planes), numbers
+    that cross a digit boundary, a long union, a long list of #n, cards continued over many lines, an IMP data
+    card with a long repeat.  The reference is the slab index of the point."""
+    st = St('c01 slabs')
+    n = ch.choose('slabs', [12, 40, 130], free=True)
+    numbering = ch.choose('numbering', ['1..N', 'across-100', 'across-100000', 'descending', 'shuffled'], free=True)
+    style = ch.choose('style', ['plain', 'every-3rd-by-complement', 'long-union', 'pairs-in-parentheses'], free=True)
+    wrap = ch.choose('wrap', ['none', 'wrap5-70', 'amp-40', 'wrap5-30'], free=True)
+    imp_style = ch.choose('imp-style', ['cell', 'card', 'card-repeat'], free=True)
+    zero = ch.choose('zero-imp-every', [0, 7], free=True)
+    base = {'1..N': 1, 'across-100': 95, 'across-100000': 99990, 'descending': 1, 'shuffled': 1}[numbering]
+    ids = [base + i for i in range(n + 2)]
+    if numbering == 'descending':
+        ids = ids[::-1]
+    elif numbering == 'shuffled':
+        ids = [ids[(7 * i + 3) % len(ids)] for i in range(len(ids))] if np.gcd(7, len(ids)) == 1 else \
+              [ids[(5 * i + 3) % len(ids)] for i in range(len(ids))]
+    sid = [base + 7 + i for i in range(n + 1)]          # surface numbers (overlapping the cell numbers)
+    if numbering == 'shuffled':
+        sid = sid[::-1]
+    xs = [-0.5 * n + 1.0 * i + (0.25 if i % 3 == 0 else 0.0) for i in range(n + 1)]
+    st.surfs = ['%d px %s' % (sid[i], fmt(xs[i])) for i in range(n + 1)]
+    # cells: slab k between plane k and plane k+1; the last two cells are the long union / the outside
+    members = list(range(n))
+    union_members = [k for k in members if style == 'long-union' and k % 4 == 1]
+    cells, owner_of_slab, imps = [], {}, {}
+    for k in members:
+        if k in union_members:
+            continue
+        cid = ids[k]
+        geo = '%d -%d' % (sid[k], sid[k + 1])
+        if style == 'every-3rd-by-complement' and k % 3 == 2 and k >= 2 and (k - 1) not in union_members:
+            # the same slab written as: right of plane k-1, left of plane k+1, not the previous cell
+            geo = '%d -%d #%d' % (sid[k - 1], sid[k + 1], ids[k - 1])
+        if style == 'pairs-in-parentheses':
+            geo = '(%d) (-%d)' % (sid[k], sid[k + 1])
+        cells.append((cid, geo))
+        owner_of_slab[k] = cid
+        imps[cid] = 0 if (zero and k % zero == 3) else 1
+    if union_members:
+        ucid = ids[n]
+        cells.append((ucid, ' : '.join('(%d -%d)' % (sid[k], sid[k + 1]) for k in union_members)))
+        for k in union_members:
+            owner_of_slab[k] = ucid
+        imps[ucid] = 1
+    # the outside: not any of the cells, written as a long list of complements or by the two end planes
+    ocid = ids[n + 1]
+    if style == 'every-3rd-by-complement':
+        cells.append((ocid, ' '.join('#%d' % c for c, _ in cells)))
+    else:
+        cells.append((ocid, '-%d : %d' % (sid[0], sid[n])))
+    imps[ocid] = 0
+    vals = [imps[c] for c, _ in cells]
+    st.cells = []
+    for (c, geo), v in zip(cells, vals):
+        card = '%d 0 %s%s' % (c, geo, ' imp:n=%d' % v if imp_style == 'cell' else '')
+        if wrap != 'none':
+            card = wrap_card(card, int(wrap.split('-')[1]), 'amp' if wrap.startswith('amp') else 'wrap5')
+        st.cells.append(card)
+    if imp_style != 'cell':
+        toks = [str(v) for v in vals]
+        if imp_style == 'card-repeat':
+            out, i = [], 0
+            while i < len(toks):
+                j = i
+                while j + 1 < len(toks) and toks[j + 1] == toks[i]:
+                    j += 1
+                out.append(toks[i])
+                if j > i:
+                    out.append('%dr' % (j - i))
+                i = j + 1
+            toks = out
+        card = 'imp:n ' + ' '.join(toks)
+        st.data.append(wrap_card(card, 60, 'wrap5') if wrap != 'none' else card)
+    st.slab_x = xs
+    st.slab_owner = owner_of_slab
+    st.slab_imps = imps
+    st.outside = ocid
+    return st
+
+
+def check_slabs(scn, st):
+    r = env.run(st.deck_text, st.options)
+    if not r.ok:
+        return verdict(False, st, cls={'kind': 'exception', 'exc': r.exc_type, 'scenario': 'slabs'},
+                       msg='conversion of a valid deck failed: %s\n%s' % (r.brief(), st.deck_text[:1500]),
+                       out='err:' + r.exc_type)
+    t4 = t4read.parse(r.t4)
+    cls, msg = oracle.structural_cls(t4, st.options)
+    if cls:
+        return verdict(False, st, cls=cls, msg=msg, out=sha(r.body))
+    xs = st.slab_x
+    pts, exp = [], []
+    for k in range(len(xs) - 1):
+        for y, z in ((0.0, 0.0), (3.5, -2.0)):
+            for t in (0.2, 0.8):
+                pts.append((xs[k] + t * (xs[k + 1] - xs[k]), y, z))
+                c = st.slab_owner[k]
+                exp.append(c if st.slab_imps[c] != 0 else None)
+    for x in (xs[0] - 1.0, xs[-1] + 2.0):
+        pts.append((x, 0.3, 0.1))
+        exp.append(None)
+    P = np.array(pts)
+    bad = oracle.compare_owner(t4, P, np.array(exp, object))
+    want = sorted(c for c, v in st.slab_imps.items() if v != 0)
+    got = sorted(t4.nonvirtual())
+    if got != want:
+        bad = ['non-virtual volumes %s..., expected %s...' % (got[:12], want[:12])] + list(bad)
+    stats = {'witness_points': len(P), 'slab_decks': 1}
+    if bad:
+        return verdict(False, st, cls={'kind': 'membership', 'scenario': 'slabs'},
+                       msg='\n'.join(bad[:8]) + '\n' + st.deck_text[:1200], out=sha(r.body), stats=stats)
+    return verdict(True, st, out=sha(r.body), nontrivial=True, stats=stats)
+
+
 def scenarios(tier):
     if tier == 'quick':
         return [
+            Scn('slabs', b_slabs, None, None,
+                'beyond the small scope: 12 / 40 / 130 slabs, numbers across a digit boundary, long unions and #n '
+                'lists, cards over many lines, IMP data card with long repeats'),
             Scn('p2-k3', b_p2(LITS4, [1, 2, 3]), None, None, 'full product, 4 planes, k<=3'),
             Scn('p2-mixed-k2', b_p2(LITSX, [1, 2], compl_inner=True, renumber=True), None, None,
                 'full product, oblique plane + rpp whole/facets, k<=2'),
@@ -300,6 +435,9 @@ def scenarios(tier):
             Scn('chain', b_chain(), 2, 3, 'complement chains #n of #m'),
         ]
     return [
+        Scn('slabs', b_slabs, None, None,
+            'beyond the small scope: 12 / 40 / 130 slabs, numbers across a digit boundary, long unions and #n '
+            'lists, cards over many lines, IMP data card with long repeats'),
         Scn('p2-k4', b_p2(LITS4, [1, 2, 3, 4]), None, None, 'full product, 4 planes, k<=4'),
         Scn('p2-mixed-k3', b_p2(LITSX, [1, 2, 3], compl_inner=True), None, None,
             'full product, oblique plane + rpp whole/facets, k<=3 with inner #( )'),
@@ -346,6 +484,8 @@ def evaluate(st, t4, flip=None):
 
 
 def check_state(scn, st):
+    if hasattr(st, 'slab_x'):
+        return check_slabs(scn, st)
     r = env.run(st.deck_text, st.options)
     if not r.ok:
         # acceptable only if the reference has no point in a cell of non-zero importance
